@@ -70,7 +70,8 @@ def run(ctx):
                     setters.append("f:%s" % v)
                     state["f"] = v if isinstance(v, str) else ("" if v == 0 else "%dutok" % v)
                 else:
-                    v = rng.choice(["x", "my label", "admin1", ""])
+                    # labels and admins are carried as given: surrounding white space, control characters, non-ASCII, upper case
+                    v = rng.choice(["x", "my label", "admin1", "", " lead", "trail ", "  ", "\u00c9t\u00e9", "MiXeD"] + (["\tx\n"] if k == "l" else []))
                     setters.append("%s:%s" % (k, v.encode().hex()))
                     state[k] = v
             salt = rng.choice([None, None, b"salt", b"\x00\x01"])
